@@ -33,7 +33,16 @@ RULE = ('history = family (donothing, mirror, hybrid, characteristic, '
         'initial fluid x per-particle velocities of both signs x ghosts on/'
         'off x props_to_copy (documented list / None) x active_stages, then '
         '1-40 steps (fraction of a zone length advanced, stage, optional '
-        'sign flip of a residue class of the velocities).  The arrays carry a '
+        'sign flip of a residue class of the velocities; fraction 0 = an '
+        'update repeated without movement) x optional second inlet and/or '
+        'outlet of the same manager (own direction, lengths, offset; same '
+        'fluid) x updaters from get_inlet_outlet or built directly from the '
+        'classes (with the given or the default active_stages, callback as '
+        'constructor argument, zone length set by hand, outlet array '
+        'possibly empty at the start) x update_cls given or None (base '
+        'classes) x '
+        'props_to_copy None / documented list / that list without a drawn '
+        'subset.  The arrays carry a '
         'unique uid and a stamp written by the harness before every update, '
         'so a fluid copy is identified by (uid, stamp).  Non-trivial = some '
         'update in which >= 2 particles change array together, or a particle '
@@ -57,6 +66,21 @@ ASSUMPTIONS = [
     'LinkedListNNPS overruns its head array there (a C01 finding)',
     'positions are compared to 1e-9 (absolute, scaled by max(1,|x|)), every '
     'other property exactly',
+    'with a second inlet/outlet the updaters run in the order '
+    'get_inlet_outlet returns them (inlets, then outlets, each in the order '
+    'of the info lists) and the model applies the same half-space rule per '
+    'updater, whatever the relative position of the zones; a history stops '
+    '(label stop_band) when a fluid particle cannot be nudged out of the '
+    'bands of two outlet planes at once',
+    'updaters built directly from the classes get the zone length set by '
+    'hand (layers x spacing, as the upstream tests do) and, when '
+    'active_stages is left out, the documented default [1] (the harness then '
+    'swaps stage numbers 1 and 2 of the drawn steps so that the frequent '
+    'stage is the active one); an outlet array that starts empty is only '
+    'used there and without a ghost outlet (create_ghost of an empty array '
+    'is not defined)',
+    'update_cls=None selects InletBase/OutletBase; OutletBase does not '
+    'maintain a ghost outlet, so none is requested then',
     'the auto-numbered Group names are reset before each evaluator is '
     'created (pysph.sph.equation.group_counter), so that the generated '
     'source - and therefore the cached JIT module - is the same for every '
@@ -66,7 +90,22 @@ ESSENTIAL_LABELS = {'all': ['recycle', 'multi_cross', 'to_outlet',
                             'outlet_delete', 'return', 'inactive_stage',
                             'oblique', 'axis', 'dim1', 'dim2', 'dim3',
                             'copy_all', 'copy_list', 'ghosts', 'long_step',
-                            'fluid_starts_empty']}
+                            'fluid_starts_empty',
+                            'zone2', 'zone2:recycle', 'zone2:to_outlet',
+                            'zone2:outlet_delete', 'zone2:ghosts',
+                            'no_move_update', 'no_move_after_event',
+                            'direct', 'direct_default_stages', 'base_cls',
+                            'copy_subset', 'copy_without_ioid',
+                            'outlet_emptied', 'into_empty_outlet',
+                            'outlet_starts_empty',
+                            'fluid_emptied', 'inlet_all_cross'] +
+                    ['%s:%s' % (f, e) for f in
+                     ('donothing', 'mirror', 'hybrid', 'characteristic',
+                      'mod_donothing')
+                     for e in ('recycle', 'to_outlet', 'outlet_delete',
+                               'multi_cross', 'oblique_recycle')] +
+                    ['mirror:ghost_to_outlet', 'mirror:ghost_delete',
+                     'hybrid:recycle_distinct_normal']}
 SHARD_TIMEOUT = {'quick': 1500, 'thorough': 6 * 3600}
 
 FAMILIES = ['donothing', 'mirror', 'hybrid', 'characteristic',
@@ -79,6 +118,11 @@ COPY_EXTRA = {'hybrid': ['uta', 'pta', 'u0', 'v0', 'w0', 'p0']}
 # properties the EDAC scheme would have added before add_io_properties
 EXTRA_PROPS = {'hybrid': ['u0', 'v0', 'w0', 'p0']}
 SCRATCH = ('ioid', 'disp')
+# entries of the documented copy list that the harness does not need on the
+# outlet (it writes x y z u v w p stamp and identifies by uid; h feeds the
+# neighbour search of the evaluator)
+COPY_DROPPABLE = ['x0', 'y0', 'z0', 'uhat', 'vhat', 'what', 'm', 'rho',
+                  'ioid', 'Bp']
 EPS_IO = 0.000001          # IOEvaluate's threshold
 BAND = 1e-5
 FLUID_MAXDIST = 1000.0
@@ -97,7 +141,7 @@ DIRS = {
 def step_strategy(draw):
     return dict(
         frac=draw(st.sampled_from([0.5, 0.25, 0.9, 0.125, 0.7, 0.5, 0.25,
-                                   1.6, 2.4])),
+                                   1.6, 2.4, 0.0, 0.9])),
         stage=draw(st.sampled_from([2, 2, 2, 1, 3])),
         flip=draw(st.sampled_from([None, None, None, [2, 0], [2, 1], [3, 1],
                                    [1, 0]])))
@@ -107,7 +151,8 @@ def step_strategy(draw):
 def case_strategy(draw, family):
     dim = draw(st.sampled_from([2, 1, 3]))
     dirs = DIRS[dim]
-    d = draw(st.sampled_from(dirs))
+    # oblique directions twice: they are the minority of the list
+    d = draw(st.sampled_from(dirs + [v for v in dirs if not is_axis(v)]))
     od = draw(st.sampled_from([None, None] + dirs))
     nt = [1, 1]
     if dim >= 2:
@@ -129,10 +174,30 @@ def case_strategy(draw, family):
         trans=draw(st.lists(st.sampled_from([0.0, 0.0, 0.5, -0.5]),
                             min_size=1, max_size=3)),
         active=draw(st.sampled_from([[2], [1], [1, 2], [1, 2, 3], [2, 3]])),
-        ghosts=draw(st.booleans()),
+        ghosts=draw(st.sampled_from([True, False, True])),
         copy_all=draw(st.booleans()),
         callback=draw(st.booleans()),
         steps=draw(st.lists(step_strategy(), min_size=1, max_size=40)))
+    if draw(st.sampled_from([0, 0, 1, 1, 1])):
+        case['zone2'] = dict(
+            which=draw(st.sampled_from(['both', 'both', 'inlet', 'outlet'])),
+            dir=draw(st.sampled_from(dirs)),
+            odir=draw(st.sampled_from([None, None] + dirs)),
+            nl_in=draw(st.integers(1, 4)), nl_out=draw(st.integers(1, 4)),
+            gap=draw(st.sampled_from([1.0, 0.5, 2.0])),
+            off=[draw(st.integers(-8, 8)) for _ in range(3)],
+            first=draw(st.booleans()))
+    else:
+        case['zone2'] = None
+    case['construct'] = draw(st.sampled_from(
+        ['manager', 'manager', 'direct', 'direct_defaults']))
+    case['base_cls'] = draw(st.sampled_from([False, False, False, True]))
+    # (direct construction only) the outlet array starts empty and the zone
+    # length is set by hand, as in the upstream tests
+    case['empty_outlet'] = draw(st.sampled_from([False, False, True]))
+    case['copy_drop'] = [] if draw(st.booleans()) else draw(
+        st.lists(st.sampled_from(COPY_DROPPABLE), min_size=1, max_size=4,
+                 unique=True))
     return case
 
 
@@ -167,8 +232,22 @@ def is_axis(d):
     return sum(1 for c in d if c != 0) == 1
 
 
-def geometry(case):
+def geometry(case, zone2=False):
+    """geometry of the (first) inlet/outlet pair; with zone2 that of the
+    second one: its own directions and gap, reference point offset from the
+    first inlet's by zone2['off'] spacings along (d, t1, t2) of the first"""
     dim, dx = case['dim'], case['dx']
+    if zone2:
+        g1 = geometry(case)
+        z = case['zone2']
+        off = [z['off'][0] * dx * g1['d'][q] + z['off'][1] * dx * g1['t1'][q]
+               + z['off'][2] * dx * g1['t2'][q] for q in range(3)]
+        sub = dict(case, dir=z['dir'], odir=z['odir'], gap=z['gap'])
+        g = geometry(sub)
+        ri = [g1['ri'][q] + off[q] for q in range(3)]
+        g['ro'] = [g['ro'][q] - g['ri'][q] + ri[q] for q in range(3)]
+        g['ri'] = ri
+        return g
     d, t1, t2 = basis(case['dir'], dim)
     od = case.get('odir')
     if od is not None:
@@ -340,21 +419,42 @@ class Setup(object):
     pass
 
 
-def build(case):
-    """Prepare the arrays and the updaters the way the family documents."""
+def build(case, cbf=None):
+    """Prepare the arrays and the updaters the way the family documents.
+
+    cbf(kind, name) -> callback for the updater of zone `name` (or None)."""
     from pysph.base.utils import get_particle_array
     from pysph.base.kernels import QuinticSpline
     from pysph.sph.bc.inlet_outlet_manager import InletInfo, OutletInfo
     fam, dim, dx = case['family'], case['dim'], case['dx']
     g = geometry(case)
+    z2 = case.get('zone2')
+    g2 = geometry(case, True) if z2 else None
     M, I, O = family_classes(fam)
     S = Setup()
-    S.g = g
+    S.g, S.g2 = g, g2
     h = case['hfac'] * dx
-    xi = block(g['ri'], g['ni'], g['t1'], g['t2'], case['nl_in'],
-               case['nt'], dx)
-    xo = block(g['ro'], g['no'], g['ot1'], g['ot2'], case['nl_out'],
-               case['nt'], dx)
+    zin = [dict(kind='inlet', name='inlet', g=g, nl=case['nl_in'], idx=0)]
+    zout = [dict(kind='outlet', name='outlet', g=g, nl=case['nl_out'],
+                 idx=0)]
+    if z2 and z2['which'] in ('both', 'inlet'):
+        zin.append(dict(kind='inlet', name='inlet2', g=g2, nl=z2['nl_in'],
+                        idx=1))
+    if z2 and z2['which'] in ('both', 'outlet'):
+        zout.append(dict(kind='outlet', name='outlet2', g=g2,
+                         nl=z2['nl_out'], idx=1))
+    for z in zin:
+        gg = z['g']
+        z['ref'], z['nrm'] = list(gg['ri']), list(gg['ni'])
+        z['pts'] = block(gg['ri'], gg['ni'], gg['t1'], gg['t2'], z['nl'],
+                         case['nt'], dx)
+        z['oblique'] = gg['oblique_in']
+    for z in zout:
+        gg = z['g']
+        z['ref'], z['nrm'] = list(gg['ro']), list(gg['no'])
+        z['pts'] = block(gg['ro'], gg['no'], gg['ot1'], gg['ot2'], z['nl'],
+                         case['nt'], dx)
+        z['oblique'] = gg['oblique_out']
     nfl = [k for k in range(case['fluid0']) if k + 0.5 < case['gap']]
     if nfl:
         xf = block(g['ri'], g['d'], g['t1'], g['t2'], len(nfl), case['nt'],
@@ -368,23 +468,50 @@ def build(case):
             return get_particle_array(name=name)
         return get_particle_array(name=name, x=pts[:, 0], y=pts[:, 1],
                                   z=pts[:, 2], h=h, m=1.0, rho=1.0)
-    inlet, fluid, outlet = mk('inlet', xi), mk('fluid', xf), mk('outlet', xo)
-    p2c = None if case['copy_all'] else COPY_BASE + COPY_EXTRA.get(fam, [])
+    base_cls = bool(case.get('base_cls'))
+    construct = case.get('construct') or 'manager'
     gi = bool(case['ghosts'])
-    go = bool(case['ghosts']) and fam == 'mirror'
-    ii = InletInfo('inlet', normal=list(g['ni']), refpoint=list(g['ri']),
-                   has_ghost=gi, update_cls=I)
-    oi = OutletInfo('outlet', normal=list(g['no']), refpoint=list(g['ro']),
-                    has_ghost=go, update_cls=O, props_to_copy=p2c)
-    iom = M(fluid_arrays=['fluid'], inletinfo=[ii], outletinfo=[oi])
+    # only the mirror Outlet class maintains a ghost outlet
+    go = bool(case['ghosts']) and fam == 'mirror' and not base_cls
+    S.empty_outlet = bool(case.get('empty_outlet')) and \
+        construct != 'manager' and not go
+    if S.empty_outlet:
+        zout[0]['pts'] = np.zeros((0, 3))
+    for z in zin + zout:
+        z['pa'] = mk(z['name'], z['pts'])
+    fluid = mk('fluid', xf)
+    if case['copy_all']:
+        p2c = None
+    else:
+        drop = case.get('copy_drop') or []
+        p2c = [x for x in COPY_BASE + COPY_EXTRA.get(fam, [])
+               if x not in drop]
+    for z in zin:
+        z['info'] = InletInfo(z['name'], normal=list(z['nrm']),
+                              refpoint=list(z['ref']), has_ghost=gi,
+                              update_cls=None if base_cls else I)
+    for z in zout:
+        z['info'] = OutletInfo(z['name'], normal=list(z['nrm']),
+                               refpoint=list(z['ref']), has_ghost=go,
+                               update_cls=None if base_cls else O,
+                               props_to_copy=p2c)
+    if z2 and z2.get('first'):
+        zin, zout = zin[::-1], zout[::-1]
+    iom = M(fluid_arrays=['fluid'], inletinfo=[z['info'] for z in zin],
+            outletinfo=[z['info'] for z in zout])
     iom.active_stages = list(case['active'])
     iom.setup_iom(dim=dim, kernel=QuinticSpline(dim=dim))
     iom.update_dx(dx)
     # velocities before the ghosts are made (create_ghost copies u)
-    main = [inlet, fluid, outlet]
+    zones = sorted(zin + zout, key=lambda z: (z['idx'], z['kind']))
+    main = []           # inlet, fluid, outlet, inlet2, outlet2
+    for z in zones:
+        main.append((z['pa'], z['g']))
+        if z['name'] == 'inlet':
+            main.append((fluid, g))
     uid0 = 0
     sp, tr = case['speeds'], case['trans']
-    for pa in main:
+    for pa, gg in main:
         n = pa.get_number_of_particles()
         uid = np.arange(uid0, uid0 + n)
         uid0 += n
@@ -393,13 +520,13 @@ def build(case):
         b = np.array([tr[(i // 2) % len(tr)] for i in uid], dtype=float)
         for q, nm in enumerate('uvw'):
             pa.get_carray(nm).get_npy_array()[:] = (
-                f * g['d'][q] + a * g['t1'][q] + b * g['t2'][q])
-    arrays = dict(inlet=inlet, fluid=fluid, outlet=outlet)
-    ghost_in = iom.create_ghost(inlet, inlet=True)
-    ghost_out = iom.create_ghost(outlet, inlet=False)
-    for gp in (ghost_in, ghost_out):
-        if gp is not None:
-            arrays[gp.name] = gp
+                f * gg['d'][q] + a * gg['t1'][q] + b * gg['t2'][q])
+    arrays = dict(fluid=fluid)
+    for z in zones:
+        arrays[z['name']] = z['pa']
+        z['ghost'] = iom.create_ghost(z['pa'], inlet=z['kind'] == 'inlet')
+        if z['ghost'] is not None:
+            arrays[z['ghost'].name] = z['ghost']
     for pa in arrays.values():
         for nm in EXTRA_PROPS.get(fam, []):
             pa.add_property(nm)
@@ -407,20 +534,52 @@ def build(case):
         pa.add_property('uid', type='long')
         pa.add_property('stamp', type='long')
     uid0 = 0
-    for pa in main:
+    for pa, gg in main:
         uid0 = fill_values(pa, uid0)
-    if ghost_in is not None:
-        ghost_in.get_carray('uid').get_npy_array()[:] = \
-            inlet.get_carray('uid').get_npy_array()
-    if ghost_out is not None:
-        ghost_out.get_carray('uid').get_npy_array()[:] = \
-            outlet.get_carray('uid').get_npy_array()
-        ghost_out.get_carray('stamp').get_npy_array()[:] = -1
+    for z in zones:
+        gp = z['ghost']
+        if gp is not None:
+            gp.get_carray('uid').get_npy_array()[:] = \
+                z['pa'].get_carray('uid').get_npy_array()
+            if z['kind'] == 'outlet':
+                gp.get_carray('stamp').get_npy_array()[:] = -1
     S.arrays = arrays
-    S.iom, S.ii, S.oi = iom, ii, oi
+    S.fluid = fluid
+    S.iom = iom
     S.p2c = p2c
-    S.updaters = iom.get_inlet_outlet(arrays)
-    S.inlet_upd, S.outlet_upd = S.updaters
+    S.go = go
+    order = zin + zout
+    if construct == 'manager':
+        upd = iom.get_inlet_outlet(arrays)
+        if len(upd) != len(order):
+            raise RuntimeError('get_inlet_outlet returned %d updaters for '
+                               '%d inlets and outlets' % (len(upd),
+                                                          len(order)))
+    else:
+        upd = [None] * len(order)
+    S.active = list(case['active'])
+    for z, u in zip(order, upd):
+        cb = cbf(z['kind'], z['name']) if cbf else None
+        if construct == 'manager':
+            z['upd'] = u
+            if cb is not None:
+                u.callback = cb
+            continue
+        # the updater classes used directly, as the upstream tests do: the
+        # zone length is set by hand
+        z['info'].length = z['nl'] * dx
+        cls = z['info'].update_cls
+        kw = dict(ghost_pa=z['ghost'])
+        if cb is not None:
+            kw['callback'] = cb
+        if construct == 'direct':
+            kw['active_stages'] = list(case['active'])
+        else:
+            S.active = [1]          # the documented default
+        z['upd'] = cls(z['pa'], fluid, z['info'], iom.kernel, dim, **kw)
+    S.order = order
+    S.zin = [z for z in order if z['kind'] == 'inlet']
+    S.zout = [z for z in order if z['kind'] == 'outlet']
     return S
 
 
@@ -454,6 +613,15 @@ def nudge(m, ref, nrm, thr):
     return int(inband.sum())
 
 
+def model_of(pa):
+    m = read_array(pa)
+    # model-only columns: the inlet a fluid record came through, and whether
+    # it went through an outlet plane
+    m.c['_from'] = -np.ones((m.n, 1))
+    m.c['_moved'] = np.zeros((m.n, 1))
+    return m
+
+
 def run_history(case):
     """-> (failures, labels, nontrivial)"""
     fam, dim, dx = case['family'], case['dim'], case['dx']
@@ -467,124 +635,159 @@ def run_history(case):
         fails.append(Failure(comp, kind, detail, k))
         return fails, sorted(labels), False
 
+    calls = []
+
+    def cbf(kind, name):
+        if not case['callback']:
+            return None
+
+        def cb(first, second):
+            calls.append((name, first.name, second.name,
+                          first.get_number_of_particles(),
+                          second.get_number_of_particles()))
+        return cb
+
     try:
-        S = build(case)
+        S = build(case, cbf)
     except Exception as ex:
         return fail('InletOutletManager.get_inlet_outlet', 'exception',
                     repr(ex))
-    g = S.g
-    labels.add('oblique' if (g['oblique_in'] or g['oblique_out'])
-               else 'axis')
-    if g['odir_diff']:
+    zones = S.order
+    labels.add('oblique' if any(z['oblique'] for z in zones) else 'axis')
+    if S.g['odir_diff']:
         labels.add('odir_diff')
     labels.add('copy_all' if case['copy_all'] else 'copy_list')
+    if S.p2c is not None and case.get('copy_drop'):
+        labels.add('copy_subset')
+        if 'ioid' not in S.p2c:
+            labels.add('copy_without_ioid')
     if case['ghosts']:
         labels.add('ghosts')
+    if case['callback']:
+        labels.add('callback')
+    construct = case.get('construct') or 'manager'
+    if construct != 'manager':
+        labels.add('direct')
+        if construct == 'direct_defaults':
+            labels.add('direct_default_stages')
+    if case.get('base_cls'):
+        labels.add('base_cls')
+    if S.empty_outlet:
+        labels.add('outlet_starts_empty')
+    if len(zones) > 2:
+        labels.add('zone2')
+        if case['ghosts']:
+            labels.add('zone2:ghosts')
     pas = S.arrays
-    inlet, fluid, outlet = pas['inlet'], pas['fluid'], pas['outlet']
+    fluid = S.fluid
     if fluid.get_number_of_particles() == 0:
         labels.add('fluid_starts_empty')
 
     # zone lengths as evaluated by the manager vs the geometric ones
-    Li_geo, Lo_geo = case['nl_in'] * dx, case['nl_out'] * dx
-    Li, Lo = float(S.ii.length), float(S.oi.length)
-    for nm, L, Lg, obl in (('inlet', Li, Li_geo, g['oblique_in']),
-                           ('outlet', Lo, Lo_geo, g['oblique_out'])):
+    Ls = []
+    for z in zones:
+        Lg = z['nl'] * dx
+        L = float(z['info'].length)
+        z['L'] = L
         if not abs(L - Lg) <= 1e-9 * max(1.0, Lg):
             fails.append(Failure(
                 'InletOutletManager.zone_length', 'zone_length',
                 '%s zone of %d layers of spacing %s along normal %s is %s '
                 'long; the manager evaluated length=%s' % (
-                    nm, round(Lg / dx), dx,
-                    g['ni'] if nm == 'inlet' else g['no'], Lg, L),
-                dict(normal='oblique' if obl else 'axis')))
-    # the model follows the length the updaters use
-    Ls = [v for v in (Li, Lo, Li_geo, Lo_geo) if v > 1e-3 * dx]
+                    z['name'], round(Lg / dx), dx, z['nrm'], Lg, L),
+                dict(normal='oblique' if z['oblique'] else 'axis')))
+        # the model follows the length the updaters use
+        Ls += [v for v in (L, Lg) if v > 1e-3 * dx]
     Lmin = min(Ls)
 
-    all_props = [p for p in inlet.properties if p not in SCRATCH]
+    all_props = [p for p in fluid.properties if p not in SCRATCH]
     out_props = all_props if S.p2c is None else \
         [p for p in S.p2c if p not in SCRATCH]
-    mI, mF, mO = read_array(inlet), read_array(fluid), read_array(outlet)
-    mO.c['_moved'] = np.zeros((mO.n, 1))
+    mF = model_of(fluid)
+    for z in zones:
+        z['m'] = model_of(z['pa'])
+        z['n0'] = z['m'].n
     n0 = mF.n
-    n_inlet0 = mI.n
+    models = [z['m'] for z in zones] + [mF]
     vmax = 0.0
-    for m in (mI, mF, mO):
+    for m in models:
         if m.n:
             v2 = m.c['u'][:, 0] ** 2 + m.c['v'][:, 0] ** 2 + \
                 m.c['w'][:, 0] ** 2
             vmax = max(vmax, float(np.sqrt(v2.max())))
     if vmax < 1e-9:
         vmax = 1.0
-    calls = []
-    if case['callback']:
-        def cb_in(d, i):
-            calls.append(('inlet', d is fluid, i is inlet,
-                          d.get_number_of_particles(),
-                          i.get_number_of_particles()))
 
-        def cb_out(s, o):
-            calls.append(('outlet', s is fluid, o is outlet,
-                          s.get_number_of_particles(),
-                          o.get_number_of_particles()))
-        S.inlet_upd.callback = cb_in
-        S.outlet_upd.callback = cb_out
-        labels.add('callback')
-
-    entered = left = 0
+    st8 = dict(entered=0, left=0, max_cross=0, returned=False)
     t = 0.0
     cum = 0.0
-    max_cross = 0
-    returned = False
 
     def write_back():
-        for pa, m in ((inlet, mI), (fluid, mF), (outlet, mO)):
+        for pa, m in [(z['pa'], z['m']) for z in zones] + [(fluid, mF)]:
             for nm in ('x', 'y', 'z', 'u', 'v', 'w', 'p', 'stamp'):
                 pa.get_carray(nm).get_npy_array()[:] = m.c[nm][:, 0]
 
     def verify(comp, after):
-        """compare the three arrays; returns failure triple or None"""
+        """compare all the arrays; returns failure triple or None"""
+        real = {}
         try:
-            rI, rF, rO = read_array(inlet), read_array(fluid), \
-                read_array(outlet)
+            rF = read_array(fluid)
+            for z in zones:
+                real[z['name']] = read_array(z['pa'])
         except ValueError as ex:
             return fail(comp, 'array_incoherent', str(ex))
-        for nm, m, r, props in (('inlet', mI, rI, all_props),
-                                ('fluid', mF, rF, all_props),
-                                ('outlet', mO, rO, out_props)):
+        todo = [(z['kind'], z['name'], z['m'], real[z['name']],
+                 all_props if z['kind'] == 'inlet' else out_props)
+                for z in zones]
+        todo.insert(1, ('fluid', 'fluid', mF, rF, all_props))
+        for kind, nm, m, r, props in todo:
             res = compare(m, r, props, '%s array after %s' % (nm, after))
             if res is not None:
-                return fail(comp, '%s_%s' % (nm, res[0]), res[1])
-        if rI.n != n_inlet0:
-            return fail(comp, 'inlet_count', 'inlet has %d particles, '
-                        'started with %d' % (rI.n, n_inlet0))
-        if rF.n != n0 + entered - left:
+                return fail(comp, '%s_%s' % (kind, res[0]), res[1])
+        for z in S.zin:
+            if real[z['name']].n != z['n0']:
+                return fail(comp, 'inlet_count', '%s has %d particles, '
+                            'started with %d' % (
+                                z['name'], real[z['name']].n, z['n0']))
+        if rF.n != n0 + st8['entered'] - st8['left']:
             return fail(comp, 'bookkeeping', 'fluid has %d particles; '
                         'initial %d + entered %d - left %d' % (
-                            rF.n, n0, entered, left))
-        for gname, owner in (('ghost_inlet', rI), ('ghost_outlet', rO)):
-            gp = pas.get(gname)
+                            rF.n, n0, st8['entered'], st8['left']))
+        for z in zones:
+            gp = z['ghost']
             if gp is None:
                 continue
+            owner = real[z['name']]
             ng = gp.get_number_of_particles()
             if ng != owner.n:
                 return fail(comp, 'ghost_count', '%s has %d particles, its '
-                            'owner %d' % (gname, ng, owner.n))
-            if gname == 'ghost_outlet':
+                            'owner %d' % (gp.name, ng, owner.n))
+            if z['kind'] == 'outlet':
                 gk = sorted(zip(gp.uid.tolist(), gp.stamp.tolist()))
                 if gk != sorted(keys_of(owner)):
-                    return fail(comp, 'ghost_identity', 'ghost_outlet '
-                                'holds %s, outlet %s' % (
-                                    gk[:30], sorted(keys_of(owner))[:30]))
-        order_like(mI, rI)
+                    return fail(comp, 'ghost_identity', '%s '
+                                'holds %s, %s %s' % (
+                                    gp.name, gk[:30], z['name'],
+                                    sorted(keys_of(owner))[:30]))
         order_like(mF, rF)
-        order_like(mO, rO)
+        for z in zones:
+            order_like(z['m'], real[z['name']])
         return None
 
+    def ev(z, what):
+        labels.add(what)
+        labels.add('%s:%s' % (fam, what))
+        if z['idx'] == 1:
+            labels.add('zone2:' + what)
+
+    prev_event = False
+    stop = False
     for k, st_ in enumerate(case['steps']):
         stage = st_['stage']
-        active = stage in case['active']
+        if construct == 'direct_defaults':
+            # the default active stage is 1: let the frequent stage be it
+            stage = {1: 2, 2: 1}.get(stage, stage)
+        active = stage in S.active
         # ---- advect (model first, then written to the arrays)
         flip = st_.get('flip')
         if flip:
@@ -597,9 +800,14 @@ def run_history(case):
             labels.add('long_step')
         else:
             frac = min(st_['frac'], max(0.0, 0.95 - cum))
+        if st_['frac'] == 0.0 and active:
+            # an update repeated without any movement
+            labels.add('no_move_update')
+            if prev_event:
+                labels.add('no_move_after_event')
         cum += frac
         dt = frac * Lmin / vmax
-        for m in (mI, mF, mO):
+        for m in models:
             if not m.n:
                 continue
             if flip:
@@ -610,118 +818,139 @@ def run_history(case):
             m.c['y'][:, 0] += m.c['v'][:, 0] * dt
             m.c['z'][:, 0] += m.c['w'][:, 0] * dt
             m.c['p'][:, 0] += 1.0
-        mI.c['stamp'][:, 0] = k
-        for _ in range(3):
-            nn = nudge(mI, g['ri'], g['ni'], 0.0)
-            nn += nudge(mI, g['ri'], g['ni'], Li)
-            nn += nudge(mF, g['ro'], g['no'], 0.0)
-            nn += nudge(mO, g['ro'], g['no'], Lo)
+        for z in S.zin:
+            z['m'].c['stamp'][:, 0] = k
+        nn = 0
+        for _ in range(6):
+            nn = 0
+            for z in S.zin:
+                nn += nudge(z['m'], z['ref'], z['nrm'], 0.0)
+                nn += nudge(z['m'], z['ref'], z['nrm'], z['L'])
+            for z in S.zout:
+                nn += nudge(mF, z['ref'], z['nrm'], 0.0)
+                nn += nudge(z['m'], z['ref'], z['nrm'], z['L'])
             if not nn:
                 break
             labels.add('nudged')
+        if nn:
+            # two outlet planes whose bands cannot be left together
+            labels.add('stop_band')
+            break
         write_back()
-        for gname in ('ghost_inlet', 'ghost_outlet'):
-            gp = pas.get(gname)
+        for z in zones:
+            gp = z['ghost']
             if gp is not None and gp.get_number_of_particles():
                 gp.x[:] = gp.x + gp.u * dt
         t += dt
-        if mF.n and np.abs(mF.disp(g['ro'], g['no'])).max() > 900.0:
+        if mF.n and max(np.abs(mF.disp(z['ref'], z['nrm'])).max()
+                        for z in S.zout) > 900.0:
             labels.add('stop_far')
             break
 
-        # ---- inlet.update
-        if active and degenerate(dim, mI, mF):
-            labels.add('stop_nnps_degenerate')
+        event = False
+        for z in zones:
+            m = z['m']
+            kind = z['kind']
+            cname = comp_name(case, 'Inlet' if kind == 'inlet' else 'Outlet')
+            if active and degenerate(dim, m, mF):
+                labels.add('stop_nnps_degenerate')
+                stop = True
+                break
+            del calls[:]
+            if z['upd'].io_eval is None:
+                reset_group_names()
+            try:
+                z['upd'].update(t, dt, stage)
+            except Exception as ex:
+                return fail(cname, 'exception', repr(ex))
+            ncross = nmove = ndel = 0
+            if not active:
+                labels.add('inactive_stage')
+            elif kind == 'inlet':
+                di = m.disp(z['ref'], z['nrm'])
+                cross = ~(di > EPS_IO)
+                ncross = int(cross.sum())
+                if mF.n:
+                    back = (mF.c['_from'][:, 0] == z['idx']) & \
+                        (mF.disp(z['ref'], z['nrm']) > EPS_IO)
+                    if back.any():
+                        st8['returned'] = True
+                if ncross:
+                    ev(z, 'recycle')
+                    if z['oblique']:
+                        ev(z, 'oblique_recycle')
+                    nr = z['nrm']
+                    if min(abs(nr[0] - nr[1]), abs(nr[1] - nr[2]),
+                           abs(nr[0] - nr[2])) > 1e-6:
+                        # no two components of the normal are equal
+                        labels.add(fam + ':recycle_distinct_normal')
+                    if ncross == m.n:
+                        labels.add('inlet_all_cross')
+                    add = m.take(np.where(cross)[0])
+                    add.c['_from'][:] = z['idx']
+                    mF.append(add)
+                    m.shift(cross, [z['L'] * c for c in z['nrm']])
+                    st8['entered'] += ncross
+            else:
+                if m.n:
+                    do = m.disp(z['ref'], z['nrm'])
+                    if ((m.c['_moved'][:, 0] > 0) & ~(do > EPS_IO)).any():
+                        st8['returned'] = True
+                    dele = (do - z['L']) > EPS_IO
+                    ndel = int(dele.sum())
+                    if ndel:
+                        ev(z, 'outlet_delete')
+                        if z['ghost'] is not None:
+                            labels.add(fam + ':ghost_delete')
+                        m.keep(~dele)
+                        if not m.n:
+                            labels.add('outlet_emptied')
+                if mF.n:
+                    df = mF.disp(z['ref'], z['nrm'])
+                    move = (df > EPS_IO) & ((df - FLUID_MAXDIST) < EPS_IO)
+                    nmove = int(move.sum())
+                    if nmove:
+                        ev(z, 'to_outlet')
+                        if z['ghost'] is not None:
+                            labels.add(fam + ':ghost_to_outlet')
+                        if not m.n:
+                            labels.add('into_empty_outlet')
+                        add = mF.take(np.where(move)[0])
+                        add.c['_moved'][:] = 1.0
+                        for p in add.c:
+                            if p not in out_props and p[0] != '_' and \
+                                    add.c[p].dtype.kind == 'f':
+                                add.c[p][:] = np.nan
+                        m.append(add)
+                        mF.keep(~move)
+                        if not mF.n:
+                            labels.add('fluid_emptied')
+                        st8['left'] += nmove
+            res = verify(cname, '%s.update #%d (stage %d, %s)' % (
+                z['name'], k, stage, 'active' if active else 'inactive'))
+            if res is not None:
+                return res
+            if case['callback'] and active:
+                want = [(z['name'], 'fluid', z['name'], mF.n, m.n)]
+                if calls != want:
+                    return fail(cname, 'callback', 'callback calls %r, '
+                                'expected %r' % (calls, want))
+            cnt = max(ncross, nmove, ndel)
+            if cnt >= 2:
+                labels.add(fam + ':multi_cross')
+            if cnt:
+                event = True
+            st8['max_cross'] = max(st8['max_cross'], cnt)
+        if stop:
             break
-        del calls[:]
-        if S.inlet_upd.io_eval is None:
-            reset_group_names()
-        try:
-            S.inlet_upd.update(t, dt, stage)
-        except Exception as ex:
-            return fail(comp_name(case, 'Inlet'), 'exception', repr(ex))
-        ncross_in = 0
-        if active:
-            di = mI.disp(g['ri'], g['ni'])
-            cross = ~(di > EPS_IO)
-            ncross_in = int(cross.sum())
-            if mF.n and (mF.c['stamp'][:, 0] >= 0).any():
-                back = (mF.c['stamp'][:, 0] >= 0) & \
-                    (mF.disp(g['ri'], g['ni']) > EPS_IO)
-                if back.any():
-                    returned = True
-            if ncross_in:
-                labels.add('recycle')
-                mF.append(mI.take(np.where(cross)[0]))
-                mI.shift(cross, [Li * c for c in g['ni']])
-                entered += ncross_in
-        else:
-            labels.add('inactive_stage')
-        res = verify(comp_name(case, 'Inlet'),
-                     'inlet.update #%d (stage %d, %s)' % (
-                         k, stage, 'active' if active else 'inactive'))
-        if res is not None:
-            return res
-        if case['callback'] and active:
-            want = [('inlet', True, True, mF.n, mI.n)]
-            if calls != want:
-                return fail(comp_name(case, 'Inlet'), 'callback',
-                            'callback calls %r, expected %r' % (calls, want))
-
-        # ---- outlet.update
-        if active and degenerate(dim, mO, mF):
-            labels.add('stop_nnps_degenerate')
-            break
-        del calls[:]
-        if S.outlet_upd.io_eval is None:
-            reset_group_names()
-        try:
-            S.outlet_upd.update(t, dt, stage)
-        except Exception as ex:
-            return fail(comp_name(case, 'Outlet'), 'exception', repr(ex))
-        nmove = ndel = 0
         if active:
             cum = 0.0
-            if mO.n:
-                do = mO.disp(g['ro'], g['no'])
-                if ((mO.c['_moved'][:, 0] > 0) & ~(do > EPS_IO)).any():
-                    returned = True
-                dele = (do - Lo) > EPS_IO
-                ndel = int(dele.sum())
-                if ndel:
-                    labels.add('outlet_delete')
-                    mO.keep(~dele)
-            if mF.n:
-                df = mF.disp(g['ro'], g['no'])
-                move = (df > EPS_IO) & ((df - FLUID_MAXDIST) < EPS_IO)
-                nmove = int(move.sum())
-                if nmove:
-                    labels.add('to_outlet')
-                    add = mF.take(np.where(move)[0])
-                    add.c['_moved'] = np.ones((add.n, 1))
-                    for p in add.c:
-                        if p not in out_props and p != '_moved' and \
-                                add.c[p].dtype.kind == 'f':
-                            add.c[p][:] = np.nan
-                    mO.append(add)
-                    mF.keep(~move)
-                    left += nmove
-        res = verify(comp_name(case, 'Outlet'),
-                     'outlet.update #%d (stage %d, %s)' % (
-                         k, stage, 'active' if active else 'inactive'))
-        if res is not None:
-            return res
-        if case['callback'] and active:
-            want = [('outlet', True, True, mF.n, mO.n)]
-            if calls != want:
-                return fail(comp_name(case, 'Outlet'), 'callback',
-                            'callback calls %r, expected %r' % (calls, want))
-        max_cross = max(max_cross, ncross_in, nmove, ndel)
-    if max_cross >= 2:
+            prev_event = event
+    if st8['max_cross'] >= 2:
         labels.add('multi_cross')
-    if returned:
+    if st8['returned']:
         labels.add('return')
-    nontrivial = (max_cross >= 2 or returned) and not fails
+    nontrivial = (st8['max_cross'] >= 2 or st8['returned']) and not fails
     return fails, sorted(labels), nontrivial
 
 
@@ -741,6 +970,10 @@ def warm_case(fam):
 
 def warm(fam):
     run_history(warm_case(fam))
+    # the evaluators of a second inlet/outlet are modules of their own
+    run_history(dict(warm_case(fam), dim=2, zone2=dict(
+        which='both', dir=[0, 1, 0], odir=None, nl_in=1, nl_out=1, gap=1.0,
+        off=[0, 6, 0], first=False)))
 
 
 PER_FAMILY = 3
@@ -748,7 +981,7 @@ PER_FAMILY = 3
 
 def plan(ctx):
     quick = ctx['tier'] == 'quick'
-    n = 60 if quick else 5000
+    n = 120 if quick else 5000
     # compile the two evaluators of each family once, before the shards
     # start (they then all load the cached modules)
     procs = []
